@@ -1,2 +1,106 @@
-/-! line-protocol driver for property C18 (stub) -/
-def main (_args : List String) : IO Unit := pure ()
+import MirVerif.Model.Footprint
+import MirVerif.Model.FootprintAllowed
+/-! line-protocol driver for property C18 (`mirdrv_c18`).
+
+`mirdrv_c18 allowed`   prints the hand-maintained classification:
+    KNOWN <file> <object>
+    REVIEWED <file> <object> <function> <kind>
+
+`mirdrv_c18` (stdin):
+    op <thread> <id> <const|-> R <loc>* W <loc>*    append an operation to the trace
+                                                     loc = c<ctx>.<addr> | s<object>.<addr>
+    run                                              evaluate the trace, print
+        HYP ok | HYP bad <opindex>:<thread>:<loc> ...      (confinement hypothesis of the theorem)
+        THREAD <i> agree=<0|1> results=<0|1> nres=<n> digest=<d>
+        SHARED unchanged=<0|1>
+        END
+    reset                                            forget the trace
+-/
+open MirVerif.Footprint
+
+structure Ent where
+  tid : Nat
+  id : Nat
+  const : Option Nat
+  rs : List Loc
+  ws : List Loc
+
+def parseLoc (s : String) : Option Loc :=
+  let body := (s.drop 1).toString
+  match body.splitOn "." with
+  | [a, b] =>
+    match a.toNat?, b.toNat? with
+    | some x, some y =>
+      if s.startsWith "c" then some (.ctx x y) else if s.startsWith "s" then some (.shared x y) else none
+    | _, _ => none
+  | _ => none
+
+def showLoc : Loc → String
+  | .ctx c a => s!"c{c}.{a}"
+  | .shared o a => s!"s{o}.{a}"
+
+def parseOp (ws : List String) : Option Ent :=
+  match ws with
+  | "op" :: t :: i :: c :: "R" :: rest =>
+    match t.toNat?, i.toNat? with
+    | some t, some i =>
+      let rs := rest.takeWhile (· != "W")
+      let wsr := (rest.dropWhile (· != "W")).drop 1
+      let rl := rs.filterMap parseLoc
+      let wl := wsr.filterMap parseLoc
+      if rl.length != rs.length || wl.length != wsr.length then none
+      else some { tid := t, id := i, const := c.toNat?, rs := rl, ws := wl }
+    | _, _ => none
+  | _ => none
+
+def toF (es : List Ent) : List (Nat × FOp) :=
+  es.map (fun e => (e.tid, { id := e.id, rs := e.rs, ws := e.ws, const := e.const }))
+
+def dedup [BEq α] (l : List α) : List α := l.foldl (fun acc x => if acc.contains x then acc else acc ++ [x]) []
+
+def m0 : Mem := fun l => (locCode l * 31 + 7) % 1000003
+
+def evalTrace (es : List Ent) : List String :=
+  -- `execTab` is `exec` (Lemmas/Footprint.lean: execTab_eq, own_toTrace), evaluated on a table
+  let tr := toF es
+  let bad := (es.zipIdx).flatMap (fun (e, k) =>
+    (e.ws.filter (fun l => !l.isCtx e.tid)).map (fun l => s!"{k}:{e.tid}:{showLoc l}") ++
+    (e.rs.filter (fun l => !l.visible e.tid)).map (fun l => s!"{k}:{e.tid}:{showLoc l}"))
+  let hyp := if bad.isEmpty then "HYP ok" else "HYP bad " ++ " ".intercalate bad
+  let locs := dedup (es.flatMap (fun e => e.rs ++ e.ws))
+  let full := execTab m0 tr []
+  let fullMem := tabMem m0 full.1
+  let tids := dedup (es.map (·.tid))
+  let thr := tids.map (fun i =>
+    let alone := execTab m0 (tr.filter (fun e => e.1 == i)) []
+    let vis := locs.filter (fun l => l.visible i)
+    let agree := snapshot fullMem vis == snapshot (tabMem m0 alone.1) vis
+    let r1 := resultsOf i full.2
+    let r2 := alone.2.map (·.2)
+    s!"THREAD {i} agree={if agree then 1 else 0} results={if r1 == r2 then 1 else 0} nres={r1.length} digest={r1.foldl mix 0}")
+  let sh := locs.filter (·.isShared)
+  let unch := snapshot fullMem sh == snapshot m0 sh
+  [hyp] ++ thr ++ [s!"SHARED unchanged={if unch then 1 else 0}", "END"]
+
+partial def loop (h : IO.FS.Stream) (es : List Ent) : IO Unit := do
+  let line ← h.getLine
+  if line.isEmpty then return ()
+  let ws := (line.trimAscii.toString.splitOn " ").filter (· != "")
+  match ws with
+  | [] => loop h es
+  | ["reset"] => loop h []
+  | ["run"] =>
+    for s in evalTrace es.reverse do IO.println s
+    (← IO.getStdout).flush
+    loop h es
+  | _ =>
+    match parseOp ws with
+    | some e => loop h (e :: es)
+    | none => IO.println s!"ERR cannot parse: {line.trimAscii}"; loop h es
+
+def main (args : List String) : IO Unit := do
+  if args == ["allowed"] then
+    for (f, o) in knownFindings do IO.println s!"KNOWN {f} {o}"
+    for (f, o, fn, k) in reviewedEscapes do IO.println s!"REVIEWED {f} {o} {fn} {k}"
+  else
+    loop (← IO.getStdin) []
